@@ -10,6 +10,7 @@ machine havocs everything the patch declared.  The oracle is the property
 statement, evaluated on the machine's final state and its memory log.
 """
 import collections
+import itertools
 
 from gtirb_rewriting import Constraints, Patch
 
@@ -90,6 +91,9 @@ def tasks(tier):
         n = len(ABIS[abi]["rep_clobbers"])
         for i in range(2 ** n):
             t.append(["rep", abi, i])
+    # process histories: modules of several ABIs rewritten one after the other in one fresh interpreter
+    for first in sorted(ABIS):
+        t.append(["history", first, 3 if tier == "thorough" else 2])
     if tier == "thorough":
         for abi in ("x64-elf", "x64-pe"):
             for chunk in range(128):  # 128 chunks of 128 subsets
@@ -377,9 +381,73 @@ def _single(cfg):
         return e
 
 
+# --------------------------------------------------------------------------- process histories
+HIST_RUNNER = r"""
+import sys, json
+sys.path.insert(0, %(root)r)
+from vf.props import c16
+print(json.dumps(c16.run_history_inproc(json.loads(%(hist)r))))
+"""
+
+
+def _hist_cfgs(abi):
+    A = ABIS[abi]
+    out = []
+    for clob in ([], A["rep_clobbers"][:2]):
+        for f, al, pcs, s in ((0, 0, 0, 0), (1, 0, 0, 1), (0, 1, 1, 0), (1, 1, 1, 2)):
+            for w in ("nonleaf", "leaf"):
+                out.append({"abi": abi, "clob": clob, "flags": f, "align": al, "pcs": pcs, "scratch": s, "reads": [], "where": w})
+    return out
+
+
+def run_history_inproc(hist):
+    """in this interpreter: one small configuration set per ABI of the history, in order; [[cfg, diffs], ...]"""
+    quiet()
+    out = []
+    for step, abi in enumerate(hist):
+        for cfg in _hist_cfgs(abi):
+            diffs = _evaluate(cfg, _single(cfg), None)
+            for d in diffs:
+                d["r_step"] = step
+                d["r_history"] = ">".join(hist[: step + 1])
+            out.append([cfg, diffs])
+    return out
+
+
+def run_history(hist):
+    """fresh interpreter per history: what an earlier rewrite left in the process (a memo on a shared ABI class, a
+    module-level table) is then exactly the history, and the case replays"""
+    import json
+    import os
+    import subprocess
+    import sys
+
+    root = os.path.dirname(os.path.dirname(os.path.dirname(os.path.abspath(__file__))))
+    code = HIST_RUNNER % {"root": root, "hist": json.dumps(hist)}
+    p = subprocess.run([sys.executable, "-c", code], capture_output=True, text=True, env=dict(os.environ), timeout=900)
+    if p.returncode != 0:
+        raise HarnessError("history sub-process failed: " + p.stderr[-400:])
+    return json.loads(p.stdout.strip().splitlines()[-1])
+
+
+def _histories(first, depth):
+    for n in range(2, depth + 1):
+        for rest in itertools.product(sorted(ABIS), repeat=n - 1):
+            yield [first] + list(rest)
+
+
 def run_task(task):
     quiet()
     res = TaskResult()
+    if task[0] == "history":
+        for hist in _histories(task[1], task[2]):
+            rows = run_history(hist)
+            bad = [d for _, ds in rows for d in ds]
+            res.case(["history", hist], nontrivial=len(set(hist)) > 1, outcome="history:" + ("discrepancy" if bad else "ok"))
+            if bad:
+                res.bad({"history": hist}, bad)
+        res.sample({"history": [task[1], sorted(ABIS)[0]]}, cap=1)
+        return res
     for abi, clob, s, reads, rest in _groups(task):
         cfgs = [
             {"abi": abi, "clob": clob, "flags": f, "align": al, "pcs": p, "scratch": s, "reads": reads, "where": w}
@@ -409,6 +477,8 @@ def run_task(task):
 
 def replay(case):
     quiet()
+    if "history" in case:
+        return [d for _, ds in run_history(case["history"]) for d in ds]
     cfg = {k: v for k, v in case.items() if k != "group"}
     grp = case.get("group")
     if grp:
